@@ -1,9 +1,21 @@
 """C08 bounds and samplers (DESIGN §4 C08)."""
 from vt.props import common_spaces as cs
-CLAIM = 'enforceBounds/satisfiesBounds and the default samplers of float-light spaces on the real code, RNG draws symbolic'
-OUT = 'SO3 normalisation, NaN/inf inputs, centre states outside bounds, statistical uniformity'
+CLAIM = ('Real enforceBounds/satisfiesBounds and default samplers (uniform, near, Gaussian) of SO(2), R^n (n<=2), Time and Discrete, with '
+         'symbolic bounds (zero-width, negative, up to 1e6), every in-bounds centre, every distance/stddev in range and every RNG draw: '
+         'enforcing leaves in-bounds states bit-identical, maps every finite state into the bounds and is idempotent; every sample satisfies the bounds.')
+OUT = 'SO3 normalisation, NaN/inf inputs, centre states outside bounds, statistical uniformity, compound/subspace samplers and valid-state samplers (see C08 valid-sampler queries when present)'
 ASSUMPTIONS = ['fmod is a contract stub (vt/stubs/fmod.c)', 'uniform canonical draw is any double in [0,1), normal draw any finite double (vt/include/vt_rng_env.h)']
 def queries(tier):
-    return [cs.so2('enforce', tier, bound='every finite double'), cs.so2('sample_uniform', tier, bound='every RNG draw'),
-            cs.so2('sample_near', tier, bound='every in-bounds centre, distance in [0,1e6], every RNG draw'),
-            cs.so2('sample_gaussian', tier, bound='every in-bounds centre, stddev in [0,1e6], every finite normal draw')]
+    qs = [cs.so2('enforce', tier, bound='every finite double'), cs.so2('sample_uniform', tier, bound='every RNG draw'),
+          cs.so2('sample_near', tier, bound='every in-bounds centre, distance in [0,1e6], every RNG draw'),
+          cs.so2('sample_gaussian', tier, bound='every in-bounds centre, stddev in [0,1e6], every finite normal draw'),
+          cs.rv('enforce', tier, 2, bound='dim 2, symbolic bounds, every finite state'),
+          cs.rv('sample_uniform', tier, 1, bound='dim 1, symbolic bounds, every draw', backends=('cadical', 'kissat')),
+          cs.rv('sample_near', tier, 1, bound='dim 1, symbolic bounds, every in-bounds centre, distance in [0,4e6]', backends=('cadical', 'kissat')),
+          cs.rv('sample_gaussian', tier, 2, bound='dim 2, symbolic bounds, every finite normal draw'),
+          cs.misc('time_enforce', tier, bound='bounded/unbounded, every finite double'),
+          cs.misc('time_sampler', tier, bound='all three sampling modes, every draw', backends=('cadical', 'kissat')),
+          cs.misc('discrete_enforce', tier, bound='every int')]
+    for w, nm in ((0, 'uniform'), (1, 'near'), (2, 'gaussian')):
+        qs.append(cs.misc('discrete_sampler', tier, name='discrete_sampler[%s]' % nm, defines={'WHICH': w}, bound='symbolic bounds, every draw', backends=('cadical', 'kissat')))
+    return qs
